@@ -36,6 +36,42 @@ def only_consts(srcs, pats, allow_lits=('lit:0', 'lit:1')):
     return all(present.values()), bad
 
 
+def control_sources(F, E, fn, o):
+    """sources of the switch discriminant that selects which constant a `matches!`-style boolean
+    receives: all definitions of the operand's local are literal assignments and their nearest
+    common dominator ends in a SwitchInt"""
+    from dataflow import Defs
+    l = op_local(o)
+    if l is None:
+        return set()
+    defs = Defs(fn)
+    seen = set()
+    while l is not None and l not in seen:      # follow plain copies
+        seen.add(l)
+        ds = defs.defs.get(l, [])
+        if len(ds) == 1 and ds[0][0] == 'assign' and ds[0][2]['rv']['r'] == 'use' and ds[0][2]['rv']['op']['k'] in ('copy', 'move') and not ds[0][2]['rv']['op']['pl']['p']:
+            l = ds[0][2]['rv']['op']['pl']['l']
+        else:
+            break
+    ds = defs.defs.get(l, [])
+    if len(ds) < 2 or not all(d[0] == 'assign' and d[2]['rv']['r'] == 'use' and d[2]['rv']['op']['k'] == 'const' for d in ds):
+        return set()
+    dom = fn.dominators()
+    common = None
+    for d in ds:
+        dd = dom.get(d[1], set()) - {d[1]}
+        common = dd if common is None else (common & dd)
+    out = set()
+    env = E.local[fn.name]
+    # nearest common dominators first: those dominated by all other common dominators
+    for c in sorted(common or (), key=lambda b: -len(dom[b])):
+        t = fn.blocks[c]['term']
+        if t['t'] == 'switch':
+            out |= E.read_op(fn, env, t['on']).all()
+            break
+    return out
+
+
 def ctx_param_index(fn):
     for i in range(1, fn.argc + 1):
         if re.search(r'(^|[ &:])Context$', fn.ty(i)) or fn.ty(i).endswith('context::Context'):
@@ -210,11 +246,17 @@ def fmt_entries(F):
 
 def scale_taint(F, E, names):
     """top-down: which (function, param index) carry a scale-derived value"""
+    return param_taint(F, E, names, lambda s: s == 'tag:scale')
+
+
+def param_taint(F, E, names, is_source):
+    """top-down taint over the call graph restricted to `names`: returns (tainted params per
+    function, predicate telling whether a source set is tainted inside a given function)"""
     tainted = collections.defaultdict(set)
 
     def is_tainted(fn, srcs):
         for s in srcs:
-            if s == 'tag:scale':
+            if is_source(s):
                 return True
             m = re.match(r'^param:(\d+)', s)
             if m and int(m.group(1)) in tainted[fn.name]:
@@ -351,6 +393,23 @@ def fmt_round(rep, F, E, rule='PROV-FMTROUND'):
                     rep.ok(rule, '%s#%d' % (k, o), 'mode=%s sign=%s' % (short(mode), short(sign)), fn.where(st['line']))
                 else:
                     rep.violation(rule, '%s#%d' % (k, o), 'formatting must round with the configured default mode and the number\'s own sign: mode sources %s, sign sources %s' % (short(mode), short(sign)), fn.where(st['line']))
+        # constructors of rounding data that take the sign as an argument
+        for bid, t in fn.calls():
+            g = F.fns.get(cres(t))
+            if g is None or not (g.locals[0].endswith('NonDigitRoundingData') or g.locals[0].endswith('InsigData')):
+                continue
+            si = [i for i in range(1, g.argc + 1) if g.ty(i).endswith('Sign')]
+            if not si:
+                continue
+            srcs = E.arg_prov(fn, t, si[0] - 1).all()
+            n += 1
+            k = '%s->%s:sign' % (fn.key, g.key)
+            o = ordn[k]
+            ordn[k] += 1
+            if any(s.startswith('variant:') for s in srcs) or not any(s.startswith('param:') or '.sign' in s or 'sign' in s for s in srcs):
+                rep.violation(rule, '%s#%d' % (k, o), 'rounding data on a formatting path is built with a sign that does not come from the formatted number: %s' % short(srcs), fn.where(t['loc']['line']))
+            else:
+                rep.ok(rule, '%s#%d' % (k, o), 'sign sources %s' % short(srcs), fn.where(t['loc']['line']))
         # rounding sinks called with an explicit mode argument
         for bid, t in fn.calls():
             g = F.fns.get(cres(t))
